@@ -51,9 +51,14 @@ ArgLists ==
     [] Fn = "sethaselement" -> UNION {{<<s, x>> : s \in Vals(t, W), x \in Members_(t.e, W)} : t \in ST}
     [] OTHER -> {}
 WeakOfArgs(a) == UNION {{[a EXCEPT ![i] = w] : w \in (IF Thorough THEN Weak1(a[i], FALSE) ELSE TakeN(Weak1(a[i], FALSE), 5) \cup TakeN(Weak1(a[i], TRUE), 4))} : i \in 1..Len(a)}
-WBase == IF Thorough THEN ArgLists ELSE TakeN(ArgLists, 120)
-ASSUME LET sq == SetToSeq(IF Mode = "weak" THEN WBase ELSE ArgLists) IN
-       ndJsonSerialize(IOEnv.VOUT, [i \in 1..Len(sq) |-> [k |-> Mode, api |-> "fn:" \o Fn, xs |-> <<[none |-> TRUE]>>, a |-> sq[i],
+\* bases for weakening: argument lists on which the reference says the call succeeds
+OkLists == {a \in ArgLists : LET r == SRef(Fn, a) IN ~Has(r, "undef") /\ r.ok}
+WBase == IF Thorough THEN OkLists ELSE TakeN(OkLists, 150)
+\* C11 injections on domain-shaped lists: a nested unknown / a whole unknown / a null argument at one position
+InjectAll(a) == UNION {{[a EXCEPT ![i] = w] : w \in TakeN(Weak1(a[i], TRUE) \ UnkMenuLite(a[i]), 3) \cup {Unk(a[i].ty, NoRf), Null(a[i].ty), DynVal}} : i \in 1..Len(a)}
+IBase == IF Thorough THEN ArgLists ELSE TakeN(OkLists, 80) \cup TakeN(ArgLists, 40)
+ASSUME LET sq == SetToSeq(IF Mode = "weak" THEN WBase ELSE IF Mode = "inject" THEN UNION {InjectAll(a) : a \in IBase} ELSE ArgLists) IN
+       ndJsonSerialize(IOEnv.VOUT, [i \in 1..Len(sq) |-> [k |-> IF Mode = "inject" THEN "call" ELSE Mode, api |-> "fn:" \o Fn, xs |-> <<[none |-> TRUE]>>, a |-> sq[i],
                                                             vs |-> IF Mode = "weak" THEN SetToSeq(WeakOfArgs(sq[i])) ELSE <<>>]])
        /\ PrintT(<<"GEN", Len(sq)>>)
 VARIABLE x
